@@ -107,6 +107,7 @@ type Result struct {
 	Logs     map[string][]string
 	Replayed int // length of the prefix that was replayed
 	Effects  int
+	Died     bool
 }
 
 type evKind int
